@@ -19,6 +19,16 @@ from . import models
 ENTRIES = {}
 
 
+def guard(ctx, obj):
+    """Register a caller-owned Python container (list / dict argument): it
+    must be unchanged after the call (checked by c20.call)."""
+    import copy
+    g = getattr(ctx, 'guards', None)
+    if g is not None:
+        g.append((obj, copy.deepcopy(obj)))
+    return obj
+
+
 class Entry:
     def __init__(self, name, gen, run, draws=False, trainer=None,
                  weight=1.0, group='misc', returns_model=None):
@@ -245,6 +255,10 @@ def _gen_mm_fit(g, kind, method=None, D=None, iterations=None):
     if kind == 'cbmm' and g.coin(0.3):
         opts['affiliation_eps'] = g.choice([0, 1e-10])
     a['opts'] = opts
+    if kind in ('cacgmm', 'cwmm', 'cbmm', 'gmm', 'vmfmm') and g.coin(0.2) \
+            and isinstance(opts['weight_constant_axis'], list):
+        a['wca_as_list'] = True
+        a['wca_nonneg'] = g.coin(0.5)
     if aligner is not None:
         a['aligner'] = aligner
     if iterations is None:
@@ -271,6 +285,12 @@ def run_mm_fit(ctx, a, initialization=None, iterations=None):
     if 'fixed_covariance' in a:
         extra['fixed_covariance'] = ctx.arr(a['fixed_covariance'])
     sal = ctx.arr(a['saliency']) if 'saliency' in a else None
+    wca = a['opts'].get('weight_constant_axis')
+    if a.get('wca_as_list') and isinstance(wca, list):
+        # a list (possibly with non-negative axes) is accepted as well
+        nd = len(a['obs']['shape'])
+        lst = [x % nd if a.get('wca_nonneg') else x for x in wca]
+        extra['weight_constant_axis'] = guard(ctx, lst)
     return models.call_fit(
         kind, trainer, obs, emb, init,
         iterations or a['iterations'], a['opts'], saliency=sal,
@@ -798,8 +818,10 @@ def _psd_pair(g, lead=None, K=None):
     if K:
         lead = [K] + lead
     return D, F, {
-        'target': g.arr(g.choice(['hpd', 'hpd', 'hrank1']), lead + [D, D]),
-        'noise': g.arr('hpd', lead + [D, D]),
+        'target': g.arr(g.choice(['hpd', 'hpd', 'hrank1', 'hsingular']),
+                        lead + [D, D]),
+        'noise': g.arr(g.choice(['hpd', 'hpd', 'hpd', 'hpd', 'hsingular']),
+                       lead + [D, D]),
     }
 
 
@@ -833,14 +855,21 @@ class _GetBf:
             a['kw']['scaling'] = g.choice(['trace', 'eigenvalue'])
         if core.startswith('rank1_pca') and g.coin(0.3):
             a['kw']['atf_kwargs'] = {'scaling': g.choice(['trace', 'eigenvalue'])}
-        if core.endswith('gev') and g.coin(0.3):
-            a['kw']['use_eig'] = True
+        if core.startswith(('rank1_gev', 'scaled_gev_atf')) and g.coin(0.6):
+            a['kw']['atf_kwargs'] = g.choice([{}, {}, {'use_eig': True},
+                                             {'use_eig': False}])
+        if core.endswith('gev') and g.coin(0.5):
+            a['kw']['use_eig'] = g.coin(0.7)
         return a
 
     @staticmethod
     def run(ctx, a):
         from pb_bss.extraction import get_bf_vector
-        kw = {k: (dict(v) if isinstance(v, dict) else v) for k, v in a['kw'].items()}
+        import copy
+        kw = copy.deepcopy(a['kw'])
+        for v in kw.values():
+            if isinstance(v, dict):
+                guard(ctx, v)      # e.g. the caller's atf_kwargs dict
         return get_bf_vector(a['name'], ctx.arr(a['target']), ctx.arr(a['noise']), **kw)
 
 
@@ -894,7 +923,7 @@ class _BfPrim:
         if w == 'gev_eig':
             return b.get_gev_vector(T, Nn, use_eig=True)
         if w == 'lcmv':
-            rv = [1] + [0] * (a['K'] - 1)
+            rv = guard(ctx, [1] + [0] * (a['K'] - 1))
             return b.get_lcmv_vector(ctx.arr(a['vecs']), rv, Nn)
         if w == 'ban':
             return b.blind_analytic_normalization(vec, Nn)
@@ -1003,7 +1032,8 @@ class _Mask:
         if w == 'quantile':
             return m.quantile_mask(x, quantile=a['q'], axis=-1)
         if w == 'quantile_tuple':
-            return m.quantile_mask(x, axis=(-2, -1))
+            return m.quantile_mask(x, quantile=guard(ctx, [0.1, -0.9]),
+                                   axis=guard(ctx, [-2, -1]))
         if w == 'biased_binary':
             return m.biased_binary_mask(x, low_cut=2, high_cut=20)
         if w == 'vuv':
@@ -1309,6 +1339,10 @@ class _RecycleCtx:
             if self.buffers[key].tobytes() != np.ascontiguousarray(src).tobytes():
                 raise PurityViolation('a caller-owned buffer was modified')
 
+    @property
+    def guards(self):
+        return getattr(self.ctx, 'guards', None)
+
     def model(self, ref):
         return self.ctx.model(ref)
 
@@ -1354,3 +1388,32 @@ class _Recycle:
                 'arrive in a buffer that carried other data during an '
                 'earlier call: ' + d)
         return [r1, r2]
+
+
+# --------------------------------------------------------------------------
+# BinaryGMM (k-means wrapper; draws its start from the global NumPy RNG)
+# --------------------------------------------------------------------------
+
+@entry('binarygmm', draws=True, weight=1.5, group='mixture')
+class _BinaryGmm:
+    @staticmethod
+    def gen(g):
+        K, D = g.K(), g.D()
+        N = g.N(4 * K, 30)
+        if g.big and g.coin(0.5):
+            N = 70000        # more than 2**18 elements
+            D = max(D, 4)
+        a = {'x': g.arr('rclusters', [N, D], K=K, dtype=g.choice(['float64', 'float64', 'float32'])),
+             'K': K, 'predict_other': g.coin(0.3), 'seed': g.seed()}
+        if g.coin(0.3):
+            a['saliency'] = g.arr('bool', [N], p=0.8, reuse=False)
+        return a
+
+    @staticmethod
+    def run(ctx, a):
+        from pb_bss.distribution import BinaryGMMTrainer
+        x = ctx.arr(a['x'])
+        sal = ctx.arr(a['saliency']) if 'saliency' in a else None
+        model = BinaryGMMTrainer().fit(x, a['K'], saliency=sal)
+        spec = dict(a['x'], seed=a['seed']) if a['predict_other'] else a['x']
+        return [model.kmeans.cluster_centers_, model.predict(ctx.arr(spec))]
